@@ -216,3 +216,71 @@ def selftest():
     assert layout('join_game', 757)[0] == 0x26
     assert struct.pack('>d', 1.5) == encode_field('double', 1.5)
     return True
+
+
+def decode_field(code, data, pos):
+    """Returns (value, new_pos); raises EOFError/ValueError on bad data."""
+    def take(n):
+        if pos + n > len(data):
+            raise EOFError('field %s truncated' % code)
+        return data[pos:pos + n], pos + n
+    if code in ('varint', 'varlong'):
+        return varint.decode(data, pos)
+    if code == 'string':
+        n, p = varint.decode(data, pos)
+        if p + n > len(data):
+            raise EOFError('string truncated')
+        return data[p:p + n].decode('utf-8'), p + n
+    if code == 'bytes_v':
+        n, p = varint.decode(data, pos)
+        if p + n > len(data):
+            raise EOFError('byte array truncated')
+        return bytes(data[p:p + n]), p + n
+    sizes = {'ushort': (2, False), 'long': (8, True), 'int': (4, True),
+             'ubyte': (1, False), 'byte': (1, True)}
+    if code in sizes:
+        n, signed = sizes[code]
+        raw, p = take(n)
+        return w.int_from(raw, signed), p
+    if code == 'bool':
+        raw, p = take(1)
+        return raw != b'\x00', p
+    if code == 'double':
+        raw, p = take(8)
+        return w.float_from(raw), p
+    if code == 'float':
+        raw, p = take(4)
+        return w.float_from(raw), p
+    if code == 'uuid':
+        raw, p = take(16)
+        return w.uuid_text(raw), p
+    raise KeyError(code)
+
+
+def decode(name, pv, payload):
+    """Decode payload (without id) -> dict; raises ValueError on leftovers."""
+    _pid, fields = layout(name, pv)
+    pos, out = 0, {}
+    for f, code in fields:
+        out[f], pos = decode_field(code, payload, pos)
+    if pos != len(payload):
+        raise ValueError('%d unread bytes in %s' % (len(payload) - pos, name))
+    return out
+
+
+SERVERBOUND = {
+    'handshake': ['handshake'],
+    'status': ['status_request', 'status_ping'],
+    'login': ['login_start', 'encryption_response'],
+    'play': ['teleport_confirm', 'sb_chat', 'sb_keep_alive',
+             'sb_position_look'],
+}
+
+
+def identify(state, pv, pid):
+    """Name of the serverbound core packet with this id in this state."""
+    for name in SERVERBOUND[state]:
+        lay = layout(name, pv)
+        if lay is not None and lay[0] == pid:
+            return name
+    return None
